@@ -40,6 +40,10 @@ Oracle calibration
     object from two classes are therefore not reported by the identity walk; sharing between an instance and
     anything else, or between two classes through different Accessible objects, is.  Property *descriptors*
     (frappy.properties.Property) are class level by design and not walked.
+  * The identity walk does not follow EnumMember *values* (a default / value taken from the base class's enum keeps a
+    reference to that Enum: members and Enums are immutable, nothing can be changed through them).
+  * An instance that deviates right at its creation while a class of its own chain deviates (already reported at the
+    step that spoiled the class) is counted as explained by that class, not reported again.
   * The class-level observation is what a class describes (for_export of every accessible, in order) - not the raw
     internal `export` property: Command.clone() normalises export=True to the wire name on the class-level object at the
     first instantiation (fixExport, idempotent, no observable consequence).
@@ -559,7 +563,7 @@ def walk(obj, path, via, out, depth=0):
         if id(obj) not in out:
             out[id(obj)] = (path, via, obj)
     elif isinstance(obj, EnumMember):
-        walk(obj.enum, path + '.enum', via, out, depth + 1)
+        return      # an immutable value; that it knows the Enum it was taken from is no aliasing of mutable state
     elif isinstance(obj, DataType):
         if id(obj) in out:
             return
@@ -746,6 +750,21 @@ def norm_path(p):
     return re.sub(r'\[\d+\]', '[]', p)[:80]
 
 
+def component(fd):
+    """which part of the observation differs: export / props (class), describe / table / validate / refused / mutout /
+    read-change-do replies (instance)"""
+    parts = [x for x in re.split(r'[.\[\]]+', fd) if x]
+    if not parts:
+        return 'all'
+    if parts[0] == 'pure':
+        if len(parts) > 1 and parts[1] == 'keys':
+            return 'refused-or-not'
+        return parts[1] if len(parts) > 1 else 'pure'
+    if parts[0] == 'impure':
+        return 'replies'
+    return parts[0]
+
+
 def relation(world, steps, ent):
     """how the differing entity relates to the subject of the last step"""
     last = steps[-1] if steps else ['prelude']
@@ -815,10 +834,15 @@ def evaluate(family, steps, part, ref, parent=None):
                     # deviating already before the last step (reported there) and not changed again by a foreign step
                     part.outcomes['diff:inherited-from-prefix'] += 1
                     continue
+            if ent[0] == 'inst' and last[0] == 'new' and ent[1] == len(world.insts) - 1:
+                mychain = chain(world.fam, world.insts[ent[1]]['cid'])
+                if any(summary['obs'][('class', c)][0] != summary['obs'][('class', c)][1] for c in mychain):
+                    part.outcomes['diff:instance-of-a-deviating-class'] += 1
+                    continue
             a, b = json.loads(obs[ent]), json.loads(expected)
             fd = first_diff(a, b)
             rel = relation(world, steps, ent)
-            sig = f'C09:{family}:diff:{rel}:{norm_path(fd)}:after-{lastkind}'
+            sig = f'C09:{family}:diff:{rel}:{component(fd)}:after-{lastkind}'
             part.outcomes['diff:' + rel] += 1
             detail = (f'program {json.dumps(case["steps"])} (family {family}, prelude {world.fam["prelude"]}): '
                       f'{describe_entity(world, ent)} differs from the same entity built alone at {fd}: '
